@@ -45,6 +45,32 @@ func runC15(c *an.Ctx) {
 		return
 	}
 
+	// the functions from which a head reaches the verification (callers of verify, transitively within
+	// the package up to the entry points) are part of what the property reasons about: the sweeps that
+	// follow every rule (derived contexts not used after their cancel, value-changing conversions)
+	// cover them too — a bifurcation handed a dead context cannot fetch a single intermediate header
+	{
+		g := p.CG()
+		seen := map[*ssa.Function]bool{verifyFn: true}
+		work := []*ssa.Function{verifyFn}
+		nCallers := 0
+		for len(work) > 0 {
+			f := work[0]
+			work = work[1:]
+			for _, cs := range g.In[f] {
+				cal := an.Enclosing(cs.Caller)
+				if cal == nil || seen[cal] || cal.Pkg == nil || cal.Pkg != verifyFn.Pkg || cal.Blocks == nil {
+					continue
+				}
+				seen[cal] = true
+				nCallers++
+				c.T(cal)
+				work = append(work, cal)
+			}
+		}
+		c.Min("C15.a", "functions through which a head reaches the verification", nCallers, 2)
+	}
+
 	// --- C15.a only soft failures bifurcate
 	{
 		t, ff := c.T(verifyFn), c.F(verifyFn)
